@@ -575,6 +575,28 @@ class World:
             return f"pr {h} resp={int(pdu.response_required)} len={ln}"
         return f"unknown-pdu {h}"
 
+    def wire_check(self, pdu) -> str:
+        """C07 'serialises to a parsable PDU': pack() has the announced length and unpack(pack())
+        has the same canonical fields (spacepackets 0.26.1 EofPdu.unpack keeps the condition code
+        unshifted: normalised).  Returns '' when fine; a marker (which the model never prints) else."""
+        try:
+            raw = pdu.pack()
+            if len(raw) != pdu.packet_len:
+                return f" wire=BAD:len{len(raw)}"
+            back = type(pdu).unpack(raw)
+            a, b = self.canon_pdu(pdu), self.canon_pdu(back)
+            if a != b:
+                if a.startswith("eof "):
+                    fa, fb = kv(a.split()[1:]), kv(b.split()[1:])
+                    if int(fb["cond"]) == int(fa["cond"]) << 4 or int(fb["cond"]) == int(fa["cond"]):
+                        fb["cond"] = fa["cond"]
+                    if fa == fb:
+                        return ""
+                return " wire=BAD:roundtrip"
+            return ""
+        except Exception as e:  # noqa: BLE001
+            return f" wire=BAD:{type(e).__name__}"
+
     @staticmethod
     def _floc(tlv) -> str:
         v = bytes(tlv.value)
@@ -706,7 +728,7 @@ class World:
                     return "ok ret=None " + self.status(name)
                 pdu = p.pdu
                 self.emitted[name].append(pdu)
-                return f"ok ret=[{self.canon_pdu(pdu)}] " + self.status(name)
+                return f"ok ret=[{self.canon_pdu(pdu)}{self.wire_check(pdu)}] " + self.status(name)
             if op == "cancel":
                 r = h.cancel_request(TransactionId(bf(t[2]), bf(t[3])))
                 return f"ok ret={'true' if r else 'false'} " + self.status(name)
